@@ -47,7 +47,7 @@ PROPS = {
         "rule": "genesis stream: per case one random CONSISTENT configuration derived from the mock genesis (2-9 users, 2-5 tokens, "
                 "1-5 pillars, delegations, legacy entries, 0-7 fusions with distinct ids, 0-4 swap entries, optional sporks, "
                 "optional swap/token/stake contract entries), 4 permutations of every unordered list -> NewGenesis hash in process "
-                "(every 5th config also in two fresh subprocesses), 6 single-entry perturbations drawn from 21 kinds -> real "
+                "(every 5th config also in two fresh subprocesses), 6 single-entry perturbations drawn from 25 kinds -> real "
                 "CheckGenesis (whole and validator by validator) vs model verdict, accepted configurations are started on a fresh "
                 "chain and the ledger is compared with the statement's sums, every 3rd config a LevelDB created with A is restarted "
                 "with B and with permuted A; 20 header lists per config through the real NewMomentumContent; distinct = distinct "
@@ -57,7 +57,7 @@ PROPS = {
                    "order-sensitive mechanisms: sorted momentum content, commuting writes to distinct keys); the contract-holding "
                    "and supply clauses of CheckGenesis hold only under extra premises (contract has a GenesisBlocks entry; one entry "
                    "per address) and TotalSupply <= MaxSupply is unchecked: _partial theorems + negative witnesses, known findings "
-                   "F13a/F13b/F13c",
+                   "F13a/F13b/F13c/F13e (and F13d: ReadGenesisConfigFromFile returns (nil,nil) on a missing amount)",
         "assumptions": ["SHA3 / ABI packing / LevelDB are not modelled: genesis hash equality is observed on the real code"],
     },
 }
